@@ -361,7 +361,11 @@ def scenario(job):
                 elif a == 2:
                     ctx.log("proc-fail")
                     d, w.pend = w.pend, None
-                    d.errback(RuntimeError("processor failed"))
+                    kind = ctx.choose("proc_error_kind", 2)
+                    from twisted.internet.defer import CancelledError as TCE_
+
+                    w.proc_cancelled = kind == 1
+                    d.errback(RuntimeError("processor failed") if kind == 0 else TCE_())
                 elif a == 3:
                     ctx.log("timer", fire_next_timer(w.clock))
                 else:
@@ -429,7 +433,7 @@ def scenario(job):
                 from twisted.internet.defer import CancelledError as TCE
 
                 ctx.check(
-                    w.res[0].check(TCE) is None,
+                    w.res[0].check(TCE) is None or getattr(w, "proc_cancelled", False),
                     "start-deferred-fires-once-with-last-processed",
                     "start() Deferred failed with the consumer's own cancellation: %r" % (w.res[0],),
                 )
